@@ -52,6 +52,18 @@ func (m *Machine) dispatchSpecial(th *Thread, fn *ssa.Function, args []Value, si
 	if in, ok := intrinsics[key]; ok {
 		return in(m, th, fn, args, site), true
 	}
+	if in, ok := concreteIntrinsics[key]; ok {
+		// native call-out only when every string argument is concrete; the real code otherwise
+		conc := true
+		for _, a := range args {
+			if sv, isStr := a.(*StrV); isStr && sv.Sym {
+				conc = false
+			}
+		}
+		if conc {
+			return in(m, th, fn, args, site), true
+		}
+	}
 	if len(m.P.Suite.NoopTypes) > 0 && fn.Signature.Recv() != nil {
 		rt := fn.Signature.Recv().Type()
 		if pt, ok := rt.Underlying().(*types.Pointer); ok {
@@ -102,6 +114,9 @@ func (m *Machine) noopResult(fn *ssa.Function, args []Value) Value {
 	}
 	return tv
 }
+
+// concreteIntrinsics are native call-outs used only for concrete arguments.
+var concreteIntrinsics = map[string]func(m *Machine, th *Thread, fn *ssa.Function, a []Value, site ssa.Instruction) Value{}
 
 func (m *Machine) strArg(v Value) string {
 	s, ok := v.(*StrV)
